@@ -320,25 +320,59 @@ def pipelines():
                               ("filter", {"filter_method": "bilateral", "sigma_color": 3.0, "sigma_space": 0.9}),
                               ("validation", dict(P.CROSS_SGM, cross_checking_threshold=2.0)),
                               ("multiscale", dict(ms, marge=2)), ("refinement", P.VFIT)])
+    # same pipeline on two different bands of the same multiband datasets (subpix 2: shifted right images)
+    out["B0"] = P.name_steps([("matching_cost", P.mc("zncc", 3, 2, "r")), ("disparity", P.WTA), ("refinement", P.VFIT),
+                              ("validation", P.CROSS)])
+    out["B1"] = P.name_steps([("matching_cost", P.mc("zncc", 3, 2, "g")), ("disparity", P.WTA), ("refinement", P.VFIT),
+                              ("validation", P.CROSS)])
     return out
 
 
-def inputs(seed=0, ny=20, nx=26):
+def inputs(seed=0, ny=20, nx=26, variant="mask"):
+    """
+    variant "mask": monoband pair, left mask with one invalid and one nodata pixel;
+            "multi": two-band pair (bands r, g) with the same mask;
+            "nan":   monoband pair WITHOUT mask whose samples contain NaN / inf (legal: only an all-NaN image is refused)
+    """
     from mc.drivers import datasets as D  # pylint: disable=import-outside-toplevel
 
     left, right = D.stereo_pair(ny, nx, shift=2, seed=seed + 3)
     msk = np.zeros((ny, nx), dtype=np.int16)
     msk[5, 7] = 2
     msk[11, 3] = 1
+    if variant == "multi":
+        l2, r2 = D.stereo_pair(ny, nx, shift=2, seed=seed + 8)
+        return (D.image(np.stack([left, l2]), disp=(-4, 4), msk=msk, bands=["r", "g"]),
+                D.image(np.stack([right, r2]), disp=None, bands=["r", "g"]))
+    if variant == "nan":
+        left = left.copy()
+        right = right.copy()
+        left[4, 6] = np.nan
+        left[12, 20] = np.inf
+        right[9, 9] = np.nan
+        return D.image(left, disp=(-4, 4)), D.image(right, disp=None)
     return D.image(left, disp=(-4, 4), msk=msk), D.image(right, disp=None)
 
 
-def run_pipeline(name, machine=None, do_check=True):
-    """returns dict of digests; raises on error"""
+def variant_of(name):
+    return "multi" if name.startswith("B") else "mask"
+
+
+def run_pipeline(name, machine=None, do_check=True, shared=None, variant=None):
+    """
+    returns dict of digests; raises on error.  `shared`: dict variant -> (left, right) datasets reused by every run of
+    a history (a user runs several pipelines on the datasets loaded once)
+    """
     from mc.drivers import datasets as D  # pylint: disable=import-outside-toplevel
     from mc.drivers import pipeline as P  # pylint: disable=import-outside-toplevel
 
-    L, R = inputs()
+    variant = variant or variant_of(name)
+    if shared is not None:
+        if variant not in shared:
+            shared[variant] = inputs(variant=variant)
+        L, R = shared[variant]
+    else:
+        L, R = inputs(variant=variant)
     L0, R0 = L.copy(deep=True), R.copy(deep=True)
     obs = P.run_observed(L, R, pipelines()[name], machine=machine, do_check=do_check, observe=True, snapshot=("disp",))
     if obs.error:
@@ -450,6 +484,7 @@ def run_history(case):
     viol = []
     ref = case["ref"]
     machines = {"M1": PandoraMachine(), "M2": PandoraMachine()}
+    shared = {}  # the datasets are built once per history and handed to every check / run of it
     n = 0
     seen_other = False
     nontrivial = False
@@ -461,7 +496,9 @@ def run_history(case):
         if kind == "c":
             from mc.drivers import pipeline as P  # pylint: disable=import-outside-toplevel
 
-            L, R = inputs()
+            if variant_of(pname) not in shared:
+                shared[variant_of(pname)] = inputs(variant=variant_of(pname))
+            L, R = shared[variant_of(pname)]
             try:
                 P.check(m, L, R, pipelines()[pname])
             except Exception as e:  # pylint: disable=broad-except
@@ -472,7 +509,7 @@ def run_history(case):
             seen_other = True
             continue
         try:
-            got = run_pipeline(pname, machine=m)
+            got = run_pipeline(pname, machine=m, shared=shared)
         except Exception as e:  # pylint: disable=broad-except
             if observed:
                 viol.append({"clause": "run-independent-of-history",
@@ -509,7 +546,7 @@ def spaces(tier, seed):
     from mc.engine import core  # pylint: disable=import-outside-toplevel
 
     core.setup_env()
-    names = ["P0", "P1", "P2", "Q1", "Q2", "X0", "X1", "X2"]
+    names = ["P0", "P1", "P2", "Q1", "Q2", "X0", "X1", "X2", "B0", "B1"]
     ref = subprocess_digests(names, 1, "workqueue", "True")
     for nme in names:
         if ref[nme]["inputs"] != "|":
@@ -534,15 +571,19 @@ def spaces(tier, seed):
                     continue
                 hist.append({"kind": "hist", "P": P, "word": list(w), "ref": ref})
     fresh = []
-    for P in ["P0", "P1", "P2"]:
-        other = "X" + P[1]
+    for P in ["P0", "P1", "P2", "B1"]:
+        other = "B0" if P == "B1" else "X" + P[1]
         ops = [f"cM1{P}", f"rM1{P}", "rM2Q1", "rM2Q2", f"cM2{other}", f"rM2{other}"]
         for ln in range(1, (2 if tier == "quick" else 3) + 1):
             for w in itertools.product(ops, repeat=ln):
                 if w[-1] != f"rM1{P}" or (ln > 1 and all(o[1:3] == "M1" for o in w)):
                     continue  # the observed run comes last; pure M1 words are covered in-process
                 fresh.append({"kind": "fresh", "P": P, "word": list(w), "ref": ref})
+    untouched = [{"kind": "untouched", "pipe": nm, "variant": v} for nm in names[:8] for v in ("mask", "nan")]
+    untouched += [{"kind": "untouched", "pipe": nm, "variant": "multi"} for nm in ("B0", "B1")]
     return [
+        {"name": "inputs untouched: every pipeline x input variant (mask / NaN-inf samples without mask / multiband)",
+         "level": 1, "cases": untouched, "chunk": 1},
         {"name": "histories, each word in a process of its own (other pipelines first, then P)", "level": 1,
          "cases": fresh, "chunk": 1},
         {"name": "E4: prange kernels, all iteration orders + conflict detection + compiled conformance", "level": 0,
@@ -552,7 +593,23 @@ def spaces(tier, seed):
     ]
 
 
+def run_inputs_untouched(case):
+    """one pipeline on one input variant: the caller's datasets must come back exactly as they went in"""
+    viol = []
+    try:
+        got = run_pipeline(case["pipe"], variant=case["variant"])
+    except Exception:  # pylint: disable=broad-except
+        return {"n": 1, "sigs": [], "viol": [], "trivial": 1}  # not every pipeline accepts every variant
+    if got["inputs"] != "|":
+        viol.append({"clause": "inputs-unmodified", "key": f"C18/inputs-modified/{case['pipe']}/{case['variant']}",
+                     "detail": f"pipeline {case['pipe']} on input variant {case['variant']} modified the caller's "
+                               f"datasets: {got['inputs']}"})
+    return {"n": 1, "sigs": [f"U|{case['pipe']}|{case['variant']}|{got['left']}"], "viol": viol}
+
+
 def run_case(case):
+    if case["kind"] == "untouched":
+        return run_inputs_untouched(case)
     if case["kind"] in ("e4", "e4big"):
         return run_e4(case, 4)
     if case["kind"] == "matrix":
